@@ -33,6 +33,7 @@ struct Session {
     int align = 0;                    // misalignment 0..15 of every application symbol buffer of this session
     std::string tag = "flow";         // flow | tenant | probe | restart | twin
     std::string tx = "real";          // encoders: "real"; decoders: which sender's packets they get: real | ref
+    int both = 0;                     // 1: the instance is created as OF_ENCODER_AND_DECODER (and used in the role above)
 };
 
 struct Op {
